@@ -149,17 +149,3 @@ Theorem C05_concat_empty_tail_refuted :
   /\ spec_concat two_parts [] [full; ASlice (Some 1) (Some 0) None] <> Err.
 Proof. exact concat_empty_tail_refuted. Qed.
 Print Assumptions C05_concat_empty_tail_refuted.
-
-(* F32: wrong data *)
-Theorem C05_concat_negative_step_refuted :
-  exists out, run_concat parts_3_1 [ASlice (Some (-9)) (Some 1) (Some (-1))] = Ok out
-  /\ spec_concat parts_3_1 [] [ASlice (Some (-9)) (Some 1) (Some (-1))] <> Ok out
-  /\ spec_concat parts_3_1 [] [ASlice (Some (-9)) (Some 1) (Some (-1))] <> Err.
-Proof. exact concat_negative_step_refuted. Qed.
-Print Assumptions C05_concat_negative_step_refuted.
-
-(* F33 *)
-Theorem C05_concat_unchecked_tail_scalar_refuted :
-  exists out, run_concat two_parts [AList []; AInt 5] = Ok out /\ spec_concat two_parts [] [AList []; AInt 5] = Err.
-Proof. exact concat_unchecked_tail_scalar_refuted. Qed.
-Print Assumptions C05_concat_unchecked_tail_scalar_refuted.
